@@ -477,12 +477,18 @@ def r02c(ctx):
     chain = [n for n in ast.walk(fn) if isinstance(n, ast.If) and pmatch("isinstance(V_e, IO)", n.test) is not None]
     if not chain:
         raise AnalysisError("anchor vanished: isinstance(e, IO) chain in are_co_aligned")
-    last = chain[0]
-    while len(last.orelse) == 1 and isinstance(last.orelse[0], ast.If):
-        last = last.orelse[0]
     node_var = one_local(fn, "V_stack.pop()", "the node popped from the work list in are_co_aligned")
-    else_ok = any(isinstance(s, ast.Expr) and pmatch(f"V_anc.append({node_var})", s.value) is not None for s in last.orelse)
-    io_ok = any(isinstance(s, ast.Expr) and pmatch(f"V_anc.append({node_var})", s.value) is not None for s in chain[0].body)
+    else_ok = io_ok = False
+    for pt in flow.walk(fn):
+        if not (isinstance(pt.stmt, ast.Expr) and pmatch(f"V_anc.append({node_var})", pt.stmt.value) is not None):
+            continue
+        facts = [(t_, pol) for t_, pol in flow.facts(pt)]
+        isinst = [(t_, pol) for t_, pol in facts if pmatch(f"isinstance({node_var}, V_k)", t_) is not None]
+        if any(pol and pmatch(f"isinstance({node_var}, IO)", t_) is not None for t_, pol in isinst):
+            io_ok = True
+        # the arm for "none of the known kinds": every class test on the node is negative here
+        if isinst and all(not pol for t_, pol in isinst) and any(pmatch(f"isinstance({node_var}, IO)", t_) is not None for t_, pol in isinst):
+            else_ok = True
     (ctx.ok if else_ok and io_ok else ctx.bad)(
         "_expr.are_co_aligned:ancestors",
         mod.loc(chain[0]),
